@@ -196,6 +196,12 @@ def run(ck: Check) -> None:
              dict(PYTHONHASHSEED="random", LC_ALL="C.UTF-8", PYTHONIOENCODING="ascii", CWD="/")]
     if ck.thorough:
         confs += [dict(PYTHONHASHSEED=str(k), LC_ALL=l, TZ=z) for k in (2, 3) for l in ("C", "C.UTF-8") for z in ("UTC", "Asia/Kolkata")]
+    # whatever environment variables the library's source mentions are part of the configuration space: one run with all of them switched on
+    names = impl.library_env_vars()
+    if names:
+        for val in ("1", "true", "yes"):
+            confs.append({n_: val for n_ in names})
+        ck.count("env-vars-read-by-the-library", len(names))
     digests = set()
     for c in confs:
         env = dict(os.environ)
